@@ -457,6 +457,12 @@ pub fn exec_cell(w: &mut RWorld, k: Kind, origin: Origin, ent: Ent, mode: RMode,
     let module = module_of(k);
     let module_fails = (module != "bank" && module != "wasm" && w.hub.fails(module)) || k == Kind::BankEmpty;
     let sibling_fails = sibling_module.map(|m| w.hub.fails(m)).unwrap_or(false);
+    // long runs must not fail for lack of funds: emitting contracts attach coins to bank kinds
+    if matches!(k, Kind::Bank | Kind::BankEmpty) {
+        for a in w.puppets.iter().chain(w.lifted.iter()).cloned().collect::<Vec<_>>() {
+            let _ = w.app.sudo(SudoMsg::Bank(BankSudo::Mint { to_address: a, amount: vec![coin(10, "ua")] }));
+        }
+    }
     let before = rawstate::dump(w.app.storage());
     w.hub.log.borrow_mut().clear();
     let _ = take_trace();
@@ -886,6 +892,101 @@ pub fn multi_cells(w: &mut RWorld, n0: u64, rep: &mut Report) -> Vec<Fail> {
             (Ok(len), None) => fails.push(("batch-response-count-differs".into(), format!("{}: {} responses", ctx, len))),
             (Ok(_), Some(_)) => fails.push(("failing-module-error-swallowed".into(), ctx.clone())),
             (Err(e), None) => fails.push(("caller-sees-failure-although-module-accepted".into(), format!("{}: {}", ctx, e))),
+        }
+    }
+    fails
+}
+
+
+// --- a chain whose custom message and query types are `Empty` (the default of AppBuilder::new) ---------------------
+
+fn ec_instantiate(_d: cosmwasm_std::DepsMut, _e: cosmwasm_std::Env, _i: cosmwasm_std::MessageInfo, _m: Empty) -> cosmwasm_std::StdResult<cosmwasm_std::Response> {
+    Ok(cosmwasm_std::Response::new())
+}
+/// Emits a custom message (plain or with a reply) and issues a custom query.
+fn ec_execute(deps: cosmwasm_std::DepsMut, _e: cosmwasm_std::Env, _i: cosmwasm_std::MessageInfo, with_reply: bool) -> cosmwasm_std::StdResult<cosmwasm_std::Response> {
+    let _ = deps.querier.query::<String>(&QueryRequest::Custom(Empty {}));
+    let m: CosmosMsg = CosmosMsg::Custom(Empty {});
+    Ok(if with_reply { cosmwasm_std::Response::new().add_submessage(cosmwasm_std::SubMsg::reply_on_success(m, 5)) } else { cosmwasm_std::Response::new().add_message(m) })
+}
+fn ec_reply(deps: cosmwasm_std::DepsMut, _e: cosmwasm_std::Env, _r: cosmwasm_std::Reply) -> cosmwasm_std::StdResult<cosmwasm_std::Response> {
+    deps.storage.set(b"replied", b"1");
+    Ok(cosmwasm_std::Response::new())
+}
+fn ec_query(_d: cosmwasm_std::Deps, _e: cosmwasm_std::Env, _m: Empty) -> cosmwasm_std::StdResult<Binary> {
+    Ok(Binary::default())
+}
+
+/// Custom messages and queries on an `Empty`-typed chain reach the custom module the application was built with:
+/// from the signer, from a contract (plain and with a reply), accepting and failing.
+pub fn empty_chain_cells(rep: &mut Report) -> Vec<Fail> {
+    let mut fails = vec![];
+    for failing in [false, true] {
+        let hub = Hub::default();
+        hub.failing.borrow_mut().insert("custom", failing);
+        let mut app = AppBuilder::new().with_custom(Rec::<Empty, Empty, Empty>::new("custom", &hub)).build(|_, _, _| {});
+        let user = app.api().addr_make("empty-chain-user");
+        let code = app.store_code(Box::new(cw_multi_test::ContractWrapper::new(ec_execute, ec_instantiate, ec_query).with_reply(ec_reply)));
+        let contract = match app.instantiate_contract(code, user.clone(), &Empty {}, &[], "ec", None) {
+            Ok(c) => c,
+            Err(e) => {
+                fails.push(("empty-chain-setup-failed".into(), e.to_string()));
+                continue;
+            }
+        };
+        let verdict = if failing { "failing" } else { "accepting" };
+        // from the signer
+        hub.log.borrow_mut().clear();
+        let before = rawstate::dump(app.storage());
+        let r = catch(|| app.execute(user.clone(), CosmosMsg::Custom(Empty {})).map(|_| ()).map_err(|e| e.to_string()));
+        rep.evaluations += 1;
+        rep.bump(&format!("c17/empty_chain/top/{}", verdict));
+        let log = hub.log.borrow().clone();
+        match r {
+            Err(p) => fails.push(("panic-routing-custom-on-empty-typed-chain".into(), p)),
+            Ok(res) => {
+                if log.iter().filter(|e| e.module == "custom" && e.kind == "exec" && e.sender.as_deref() == Some(user.as_str())).count() != 1 {
+                    fails.push(("message-not-delivered-intact".into(), format!("Custom(Empty) from the signer on an Empty-typed chain ({} module): log {:?}, result {:?}", verdict, log, res)));
+                } else if res.is_ok() == failing {
+                    fails.push((if failing { "failing-module-error-swallowed".into() } else { "caller-sees-failure-although-module-accepted".into() }, format!("Custom(Empty) from the signer: {:?}", res)));
+                } else if failing && rawstate::dump(app.storage()) != before {
+                    fails.push(("failed-transaction-left-state-changes".into(), "Custom(Empty) from the signer".into()));
+                }
+            }
+        }
+        // query from the signer
+        hub.log.borrow_mut().clear();
+        let bytes = to_json_vec(&QueryRequest::<Empty>::Custom(Empty {})).unwrap();
+        let _ = catch(|| app.raw_query(&bytes));
+        rep.evaluations += 1;
+        rep.bump(&format!("c17/empty_chain/query/{}", verdict));
+        if hub.log.borrow().iter().filter(|e| e.module == "custom" && e.kind == "query").count() != 1 {
+            fails.push(("query-not-delivered-intact".into(), format!("Custom(Empty) query on an Empty-typed chain ({} module): log {:?}", verdict, hub.log.borrow())));
+        }
+        // from a contract: plain message and sub-message with a reply (the contract also queries once)
+        for with_reply in [false, true] {
+            hub.log.borrow_mut().clear();
+            let before = rawstate::dump(app.storage());
+            let r = catch(|| app.execute_contract(user.clone(), contract.clone(), &with_reply, &[]).map(|_| ()).map_err(|e| e.to_string()));
+            rep.evaluations += 1;
+            rep.bump(&format!("c17/empty_chain/contract{}/{}", if with_reply { "-with-reply" } else { "" }, verdict));
+            let log = hub.log.borrow().clone();
+            match r {
+                Err(p) => fails.push(("panic-routing-custom-on-empty-typed-chain".into(), p)),
+                Ok(res) => {
+                    let execs = log.iter().filter(|e| e.module == "custom" && e.kind == "exec" && e.sender.as_deref() == Some(contract.as_str())).count();
+                    let queries = log.iter().filter(|e| e.module == "custom" && e.kind == "query").count();
+                    if execs != 1 || queries != 1 {
+                        fails.push(("message-not-delivered-intact".into(), format!("Custom(Empty) from a contract on an Empty-typed chain ({} module, reply {}): log {:?}, result {:?}", verdict, with_reply, log, res)));
+                    } else if res.is_ok() == failing {
+                        fails.push((if failing { "failing-module-error-swallowed".into() } else { "caller-sees-failure-although-module-accepted".into() }, format!("Custom(Empty) from a contract: {:?}", res)));
+                    } else if failing && rawstate::dump(app.storage()) != before {
+                        fails.push(("failed-transaction-left-state-changes".into(), "Custom(Empty) from a contract".into()));
+                    } else if !failing && with_reply && app.contract_storage(&contract).get(b"replied").is_none() {
+                        fails.push(("module-response-not-delivered-to-reply".into(), "Custom(Empty) sub-message with reply_on success on an Empty-typed chain".into()));
+                    }
+                }
+            }
         }
     }
     fails
